@@ -145,6 +145,41 @@ def _nested_pool():
     return out
 
 
+MKSEQ_LEVEL_PATTERNS = [
+    ".*",
+    "(sequence_header high_quality_picture)* end_of_sequence",
+    "(sequence_header low_delay_picture)* end_of_sequence",
+    "sequence_header ( (sequence_header | auxiliary_data | padding_data | low_delay_picture | high_quality_picture)* | (sequence_header | auxiliary_data | padding_data | low_delay_picture_fragment | high_quality_picture_fragment)*) end_of_sequence",
+]
+MKSEQ_EXTRAS = [
+    [],
+    ["sequence_header ((padding_data high_quality_picture) | low_delay_picture)* end_of_sequence"],
+    ["sequence_header ((padding_data low_delay_picture) | high_quality_picture)* end_of_sequence"],
+    ["(sequence_header (padding_data | auxiliary_data)* high_quality_picture)* end_of_sequence"],
+    ["(sequence_header (padding_data | auxiliary_data)* low_delay_picture)* end_of_sequence"],
+    ["(sequence_header auxiliary_data? .)* end_of_sequence"],
+    ["sequence_header .* padding_data end_of_sequence"],
+    ["(sequence_header .)* end_of_sequence", ".* end_of_sequence"],
+    ["sequence_header (. padding_data?)* end_of_sequence"],
+]
+_MK = {}
+
+
+def _mkseq_setup():
+    """two tiny codec configurations (HQ, LD) and their mid-grey pictures"""
+    if not _MK:
+        from vlib.gen import configs
+
+        for name, over in (("hq", dict(profile=3, pb=40)), ("ld", dict(profile=0, pb=24))):
+            r = dict(base=0, cdf=0, pcm=0, ss=0, tff=True, w=8, h=4, fr=None, par=None, range=[0, 255, 128, 255], prim=None, mat=None,
+                     tf=None, lossless=False, wi=4, wih=4, d=1, dh=0, sx=2, sy=1, fsc=0, qm=None, level=0,
+                     pics={"n": 3, "class": "mid", "seed": 1, "nums": None})
+            r.update(over)
+            cf = configs.build_cf(r)
+            _MK[name] = (cf, configs.build_pictures(r, cf["video_parameters"]))
+    return _MK
+
+
 def _looppair_cases():
     """(required, [loop, chain]): a pattern that keeps returning to the same matcher state set, listed BEFORE a concrete
     chain that narrows the candidates differently at each visit (whatever is remembered per state set between visits,
@@ -229,6 +264,11 @@ def plan(tier, seed):
     for n in ((400, 3500) if tier == "quick" else (400, 3500, 9000)):
         for pats in (["(s p)* e"], ["s (p | x)* e", ".* e"]):
             cases.append({"kind": "long", "n": n, "patterns": pats, "w": n * 4.0})
+    # the encoder's make_sequence (the real caller): level ordering pattern x profile x picture count x extra patterns,
+    # consecutive calls in one process alternating the picture type
+    nm = len(MKSEQ_LEVEL_PATTERNS) * len(MKSEQ_EXTRAS)
+    for i in range(0, nm, 12):
+        cases.append({"kind": "mkseq", "lo": i, "hi": min(nm, i + 12), "w": 12 * 8 * 6.0})
     lp = _looppair_cases()
     for i in range(0, len(lp), 400):
         cases.append({"kind": "looppairs", "lo": i, "hi": min(len(lp), i + 400), "w": 400 * 2 * 3.0})
@@ -265,8 +305,10 @@ def _lenof(x):
     return None if x is None else len(x)
 
 
-def _judge(ctx, required, patterns, depth, priority, stratum):
-    """One call of the real function, judged.  depth None = do not pass depth_limit."""
+def _judge(ctx, required, patterns, depth, priority, stratum, call=None):
+    """One call of the real function, judged.  depth None = do not pass depth_limit.
+    call: instead of make_matching_sequence itself, a function returning the list of symbols (None = reported impossible)
+    obtained through a caller of it (the encoder's make_sequence) that passes exactly these arguments."""
     from vc2_conformance.symbol_re import make_matching_sequence, ImpossibleSequenceError, WILDCARD, Matcher
 
     case = {"kind": "one", "required": list(required), "patterns": list(patterns), "depth_limit": depth,
@@ -290,7 +332,7 @@ def _judge(ctx, required, patterns, depth, priority, stratum):
     if priority or depth is None:
         kwargs["symbol_priority"] = list(priority)
     try:
-        got = make_matching_sequence(list(required), *patterns, **kwargs)
+        got = call() if call is not None else make_matching_sequence(list(required), *patterns, **kwargs)
     except ImpossibleSequenceError:
         got = None
     except Exception as e:
@@ -452,6 +494,60 @@ def _run_case(case, ctx):
         else:
             ctx.count("agree:long")
         ctx.seen(jsonx.key_hash(case))
+    elif kind == "mkseq":
+        import copy
+
+        from vc2_conformance.encoder import make_sequence
+        from vc2_conformance.encoder.exceptions import IncompatibleLevelAndDataUnitError
+        from vc2_conformance.level_constraints import LEVEL_SEQUENCE_RESTRICTIONS, LevelSequenceRestrictions
+        from vc2_conformance.symbol_re import ImpossibleSequenceError
+        from vc2_data_tables import Levels, ParseCodes
+
+        mk = _mkseq_setup()
+        saved = LEVEL_SEQUENCE_RESTRICTIONS[Levels(0)]
+        combos = [(lp, ex) for lp in MKSEQ_LEVEL_PATTERNS for ex in MKSEQ_EXTRAS][case["lo"] : case["hi"]]
+        try:
+            for lp, extras in combos:
+                # the ordering pattern is installed on level 0 (as the repository's own tests do): the real levels 64-66
+                # need UHD / HD frames
+                LEVEL_SEQUENCE_RESTRICTIONS[Levels(0)] = LevelSequenceRestrictions("synthetic", lp)
+                for npics in (0, 1, 2, 3):
+                    for prof in ("hq", "ld", "hq", "ld"):  # alternating picture types back to back, twice
+                        cf, pics = mk[prof]
+                        pname = "high_quality_picture" if prof == "hq" else "low_delay_picture"
+
+                        def call():
+                            try:
+                                seq = make_sequence(cf, copy.deepcopy(pics[:npics]), *extras)
+                            except IncompatibleLevelAndDataUnitError:
+                                raise ImpossibleSequenceError()
+                            return [ParseCodes(du["parse_info"]["parse_code"]).name for du in seq["data_units"]]
+
+                        ctx.count("make_sequence_calls")
+                        try:
+                            res = call()
+                            err = None
+                        except KeyError as e:
+                            if e.args and str(e.args[0]).endswith(("_picture", "_picture_fragment")):
+                                # the shortest sequence the patterns admit contains a picture the caller did not supply
+                                # (e.g. a header that must be followed by a picture): make_sequence has nothing to put
+                                # there.  Outside this property (which is about the symbol sequences), counted only.
+                                ctx.count("mkseq_patterns_demand_an_extra_picture")
+                                continue
+                            res, err = None, e
+                        except BaseException as e:
+                            res, err = None, e
+
+                        def replay(res=res, err=err):
+                            if err is not None:
+                                raise err
+                            return res
+
+                        _judge(ctx, [pname] * npics, ["sequence_header .* end_of_sequence", lp] + list(extras), None,
+                               ["padding_data", "sequence_header"], "mkseq", call=replay)
+        finally:
+            LEVEL_SEQUENCE_RESTRICTIONS[Levels(0)] = saved
+        ctx.sample({"stratum": "mkseq", "level_pattern": combos[0][0], "extra_patterns": combos[0][1], "pictures": "0..3 of each profile, alternating"})
     elif kind == "looppairs":
         pool = _looppair_cases()
         for req, pats in pool[case["lo"] : case["hi"]]:
